@@ -195,8 +195,27 @@ package meshops
 //@   props C01
 //@ func UnweldTransformer.Transform frameonly
 //@   props C01
-//@ func Unweld frameonly
-//@   props C01
+// Unweld: one vertex per corner - the result has the input's index count, identity indices and the input's topology.
+// (That the vertex arrays hold the corner values, unweldedData[k][i] == data[k][indices[i]], is not stated: it needs the
+// attribute-name lists and iterators of Mesh under contract inside four nested loops.)
+//@ func Unweld
+//@   props C01 C03
+//@   unclaimed requires@call[ArrayIterator.At]: accessor preconditions (attribute present, index in range) follow from well-formedness of m, which this thin contract does not carry
+//@   unclaimed safe.index: as above
+//@   unclaimed safe.nilmap: as above
+//@   returns r
+//@   ensures [C03] identity_indices: len(r.indices) == len(m.indices) && (forall k int :: 0 <= k && k < len(r.indices) ==> r.indices[k] == k)
+//@   ensures [C03] topology_kept: r.topology == m.topology
+//@   loop 5:
+//@     invariant [C03] identity_so_far: 0 <= i && i <= len(indices) && len(indices) == len(m.indices) && fresh(indices) && (forall k int :: 0 <= k && k < i ==> indices[k] == k)
+//@   loop 6:
+//@     invariant [C03] identity_so_far: 0 <= i && i < len(indices) && len(indices) == len(m.indices) && fresh(indices) && (forall k int :: 0 <= k && k <= i ==> indices[k] == k)
+//@   loop 7:
+//@     invariant [C03] identity_so_far: 0 <= i && i < len(indices) && len(indices) == len(m.indices) && fresh(indices) && (forall k int :: 0 <= k && k <= i ==> indices[k] == k)
+//@   loop 8:
+//@     invariant [C03] identity_so_far: 0 <= i && i < len(indices) && len(indices) == len(m.indices) && fresh(indices) && (forall k int :: 0 <= k && k <= i ==> indices[k] == k)
+//@   loop 9:
+//@     invariant [C03] identity_so_far: 0 <= i && i < len(indices) && len(indices) == len(m.indices) && fresh(indices) && (forall k int :: 0 <= k && k <= i ==> indices[k] == k)
 //@ func readAllFloatXData frameonly
 //@   props C01
 //@ func readAllFloat4Data frameonly
